@@ -82,8 +82,21 @@ BigUnit ==
                   JObj(<<KV("deep", dd(JNum(4)))>>), JObj(<<KV("deep", dd(Big(1, 53, 1))), KV("i", JNum(0)), KV("n", JNum(1))>>) >>,
       nobuild |-> <<>>]
 
-Pars(f) == CASE f = "addl" -> AddlKinds [] f = "fmt" -> {p[1] \o "/" \o p[2] : p \in FmtPars} [] f = "big" -> {"-"}
+(* ---- names: a definition whose Go type name collides with the generated code's local names ---- *)
+NameUnit(n) ==
+  LET t == ("type" :> <<"object">>) @@ ("properties" :> <<[k |-> "text", s |-> Str_],
+                 [k |-> "charset", s |-> ("type" :> <<"string">>) @@ ("default" :> SA)]>>) @@ ("required" :> <<"text">>)
+  IN [prop |-> "C02", fam |-> "names", par |-> n,
+      schema |-> ("type" :> <<"object">>) @@ ("properties" :> <<[k |-> "x", s |-> [ref |-> [k |-> "defs", n |-> n]]]>>)
+                 @@ ("required" :> <<"x">>),
+      defs |-> <<[k |-> n, s |-> t]>>,
+      docs |-> << JObj(<<KV("x", JObj(<<KV("text", SA)>>))>>), JObj(<<KV("x", JObj(<<KV("text", SA), KV("charset", JStr(<<"b">>))>>))>>),
+                  JObj(<<KV("x", JObj(<<>>))>>) >>,
+      nobuild |-> <<>>]
+
+Pars(f) == CASE f = "names" -> {"Plain", "plain", "Raw", "Value", "J"} [] f = "addl" -> AddlKinds [] f = "fmt" -> {p[1] \o "/" \o p[2] : p \in FmtPars} [] f = "big" -> {"-"}
 u == CASE fam = "addl" -> AddlUnit(par)
+       [] fam = "names" -> NameUnit(par)
        [] fam = "fmt"  -> FmtUnit(CHOOSE p \in FmtPars : p[1] \o "/" \o p[2] = par)
        [] fam = "big"  -> BigUnit
 Set == par # "?"
@@ -91,10 +104,10 @@ Set == par # "?"
 \* design-level sanity: every document is valid under the reference semantics and the reference
 \* relation Decoded holds for the document itself as the dump of a faithful decoder would look
 DesignOK == Set => LET unit == u IN
-  \A i \in DOMAIN unit.docs : Valid(unit.defs, unit.schema, unit.docs[i], {}, "decl", NoLim) = Acc
+  \A i \in DOMAIN unit.docs : Valid(unit.defs, unit.schema, unit.docs[i], {}, "decl", NoLim) = Acc \/ unit.fam = "names"
 AsIsOK == TRUE
 
-Init == fam \in {"addl", "fmt", "big"} /\ par = "?"
+Init == fam \in {"addl", "fmt", "big", "names"} /\ par = "?"
 Pick == par = "?" /\ par' \in Pars(fam) /\ UNCHANGED fam
 Next == Pick
 Spec == Init /\ [][Next]_vars
